@@ -471,7 +471,8 @@ def row_call_function(fx, p, evs, R):
         ra = f.get("return_address")
         bump_i = sk.index("ip_bump") if "ip_bump" in sk else 99
         R.need(ra is not None and ra[0] == "sym" and ra[2] == "ip_after_bump" and bump_i < sk.index("frame_push"), "return address is not the instruction after the call")
-    R.need(any(c[0] == "app" and c[1] == "ne" and not val and mentions(c, ("var", "arguments")) and "'parameters'" in fmt_term(c) for c, val in assumes(p["eff"])),
+    R.need(any(cc[0] == "app" and cc[1] == "ne" and not tt and mentions(cc, ("var", "arguments")) and "'parameters'" in fmt_term(cc)
+               for c, val in assumes(p["eff"]) for cc, tt in spellings(c, val)),
            "argument count is not compared with the function's parameter count")
     R.need(ip[0]["val"] == ("some", fld(("app", "proj", (m, lit("Method"), lit("code"))), "start")), "ip is not set to the function's start address")
 
@@ -718,6 +719,38 @@ def _recv_mentions(effs, e, text):
     return False
 
 
+_NEG = {"eq": "ne", "ne": "eq", "lt": "ge", "ge": "lt", "gt": "le", "le": "gt"}
+
+
+def spellings(c, val):
+    """the equivalent spellings of one assumption: `eq(a,b)` assumed False is `ne(a,b)` assumed True, `not(x)` assumed
+    True is x assumed False, … — yields (condition, truth) pairs, the original first"""
+    truth = bool(val == TRUE or val is True)
+    seen = []
+
+    def add(cc, tt):
+        if (cc, tt) not in seen:
+            seen.append((cc, tt))
+    add(c, truth)
+    cur, t = c, truth
+    while isinstance(cur, tuple) and cur[:2] == ("app", "not") and len(cur[2]) == 1:
+        cur, t = cur[2][0], not t
+        add(cur, t)
+    if isinstance(cur, tuple) and cur[:1] == ("app",) and cur[1] in _NEG and len(cur[2]) == 2:
+        add(("app", _NEG[cur[1]], cur[2]), not t)
+        add(("app", "not", (cur,)), not t)
+    return seen
+
+
+def assumed(effs, text, want):
+    """is there an assumption on the path that, in one of its equivalent spellings, contains `text` with truth `want`?"""
+    for c, val in assumes(effs):
+        for cc, tt in spellings(c, val):
+            if text in fmt_term(cc) and tt == want:
+                return True
+    return False
+
+
 def take_modes(effs):
     """How a handler takes values out of a local (non operand-stack) sequence: 'back' (Vec::pop, next on a reversed
     iterator, next_back), 'front' (next on a forward iterator, remove(0)). Returns the set of modes seen."""
@@ -803,7 +836,9 @@ def fault_rows(ck, fx, cg, rule="R10.faults"):
 
     def assume_pred(text, val=None):
         def f(e):
-            return e["k"] == "assume" and text in fmt_term(e["args"][0]) and (val is None or (e["args"][1] == TRUE) == val)
+            if e["k"] != "assume":
+                return False
+            return any(text in fmt_term(cc) and (val is None or tt == val) for cc, tt in spellings(e["args"][0], e["args"][1]))
         return f
 
     def fail_pred(op):
